@@ -191,7 +191,37 @@ class Checker:
         return ok
 
 
+class PathTimeout(BaseException):
+    pass
+
+
+def _alarm(signum, frame):
+    raise PathTimeout()
+
+
+PATH_TIMEOUT_S = int(__import__("os").environ.get("VERIF_PATH_TIMEOUT", "60"))
+
+
 def run_paths(ctx, fn_name, engine, tag, wb, body, allowed_exc=(), max_paths=400):
+    import signal
+    old = signal.signal(signal.SIGALRM, _alarm)
+    try:
+        return _run_paths(ctx, fn_name, engine, tag, wb, body, allowed_exc, max_paths)
+    finally:
+        signal.setitimer(signal.ITIMER_REAL, 0)
+        signal.signal(signal.SIGALRM, old)
+
+
+def _run_paths(ctx, fn_name, engine, tag, wb, body, allowed_exc=(), max_paths=400):
+    import signal
+
+    def timed(chk):
+        signal.setitimer(signal.ITIMER_REAL, PATH_TIMEOUT_S, 0.25)
+        try:
+            return body(chk)
+        finally:
+            signal.setitimer(signal.ITIMER_REAL, 0)
+
     """Explore every feasible path of body(chk) -> None.  body performs the call and adds
     obligations through chk.  Exceptions escaping body are failed safety obligations unless the
     contract allows them (body should catch those itself)."""
@@ -199,9 +229,13 @@ def run_paths(ctx, fn_name, engine, tag, wb, body, allowed_exc=(), max_paths=400
     npaths = 0
     t0 = time.time()
     try:
-        for path, pcd, out, exc in explore(ctx, lambda: body(chk), max_paths=max_paths):
+        for path, pcd, out, exc in explore(ctx, lambda: timed(chk), max_paths=max_paths):
             npaths += 1
             if exc is None:
+                continue
+            if isinstance(exc, PathTimeout):
+                chk.add("terminates", False, "no result after %d s on this path (the unchanged tree needs < 1%% of that): "
+                        "non-termination or blow-up" % PATH_TIMEOUT_S, tags={"timeout": True})
                 continue
             if isinstance(exc, SpecUndecided):
                 chk.add("spec-decidable", False, "spec comparison undecided: %s" % exc, status=ERROR)
